@@ -28,8 +28,8 @@ theorem C04App_delivered_is_taken (a : ACfg) (evs : List Ev) :
   (runEvs_InvF a evs).deliv
 
 /-- **Conservation through the second stage.** The decoded payloads of the inner messages handed to `_on_soup_message`
-    (undecodable ones and non-data packets dropped) are, in order: gone for good (handed to the application consumer, or
-    dropped by a late cancel), held for the pending `receive_message()`, or still in the second queue. -/
+    (undecodable ones and non-data packets dropped) are, in order: gone for good (handed to the application consumer:
+    `C04App_nothing_lost`), held for the pending `receive_message()`, or still in the second queue. -/
 theorem C04App_flow (a : ACfg) (evs : List Ev) :
     (reach a evs).gone2.map (·.1) ++ (reach a evs).vres2.toList ++ (reach a evs).q2
       = (entered (reach a evs).inner.trace).filterMap (valOf a) := by
@@ -46,18 +46,32 @@ private theorem gone_all_taken (g : List (Nat × Bool)) (h : (g.filter (fun p =>
     | true => simp at h ⊢; exact ih (by simpa using h)
     | false => simp at h
 
-/-- **Prefix through the second stage (histories without a late cancel of `receive_message()`).** What the application
-    consumer was handed is a prefix of `decode` applied to what the soup session delivered to the application session.
-    The hypothesis excludes exactly the known finding C04-late-cancel (same queue class; `Witness/C04App.lean`). -/
-theorem C04App_prefix_partial (a : ACfg) (evs : List Ev) (hl : (reach a evs).lost2 = []) :
-    appDelivered (reach a evs).trace2 <+: (entered (reach a evs).inner.trace).filterMap (valOf a) := by
+/-- **Nothing is dropped, on either queue.** Since the repair of C04-late-cancel-loses-message a cancelled receive puts the
+    value its helper task held back in front of the queue (same class, `DispatchableMessageQueue`, on both stages); the previous
+    semantics and the history on which it loses a value are kept in `Witness/C04App.lean`. -/
+theorem C04App_nothing_lost (a : ACfg) (evs : List Ev) : (reach a evs).lost2 = [] ∧ (reach a evs).inner.lost = [] := by
+  refine ⟨(runEvs_InvF a evs).lost, ?_⟩
+  obtain ⟨es, he⟩ := runEvs_reach a evs
+  rw [he]; exact C04.C04_nothing_lost (innerCfg a) es
+
+/-- **Exact accounting on the second stage.** Delivered, then held for the pending `receive_message()`, then queued = the
+    decoded payloads handed to `_on_soup_message`, in every reachable state, whatever was cancelled. -/
+theorem C04App_accounting (a : ACfg) (evs : List Ev) :
+    appDelivered (reach a evs).trace2 ++ (reach a evs).vres2.toList ++ (reach a evs).q2
+      = (entered (reach a evs).inner.trace).filterMap (valOf a) := by
   have i := runEvs_InvF a evs
-  rw [i.deliv, ← C04App_flow a evs]
-  have ht : (reach a evs).gone2.map (·.1) = (reach a evs).taken2 := gone_all_taken _ hl
-  rw [ht]
+  have ht : (reach a evs).gone2.map (·.1) = (reach a evs).taken2 := gone_all_taken _ i.lost
+  rw [i.deliv, ← ht]
+  exact C04App_flow a evs
+
+/-- **Prefix through the second stage.** What the application consumer was handed is a prefix of `decode` applied to what the
+    soup session delivered to the application session — every history, late cancels of `receive_message()` included. -/
+theorem C04App_prefix (a : ACfg) (evs : List Ev) :
+    appDelivered (reach a evs).trace2 <+: (entered (reach a evs).inner.trace).filterMap (valOf a) := by
+  rw [← C04App_accounting a evs]
   exact ⟨(reach a evs).vres2.toList ++ (reach a evs).q2, by simp⟩
 
-/-- **Order, no duplicates, no inventions through the second stage — unconditionally.** -/
+/-- **Order, no duplicates, no inventions through the second stage** (a consequence of `C04App_prefix`, kept with its own proof). -/
 theorem C04App_sublist (a : ACfg) (evs : List Ev) :
     List.Sublist (appDelivered (reach a evs).trace2) ((entered (reach a evs).inner.trace).filterMap (valOf a)) := by
   have i := runEvs_InvF a evs
@@ -141,19 +155,19 @@ theorem C04App_wire_sublist (a : ACfg) (evs : List Ev) :
     rw [he]; exact C04.C04_sublist (innerCfg a) es
   exact h1.trans (((entered_sublist_delivered _).trans h2).filterMap _)
 
-/-- **Prefix — from the wire to the application consumer (the property).** If neither stage lost a message to a late cancel
-    (the known finding) and the messages the soup session handed out by pull — the login reply — are not application data,
-    the values handed to the application consumer are a prefix of the decodable application messages carried by the bytes
-    received so far: same order, nothing skipped, nothing twice, nothing that was not sent; pull and callback mode, any
-    decoded value (falsy ones included), cancelled receives. -/
-theorem C04App_wire_prefix_partial (a : ACfg) (evs : List Ev)
-    (hl2 : (reach a evs).lost2 = []) (hl1 : (reach a evs).inner.lost = [])
+/-- **Prefix — from the wire to the application consumer (the property).** If the messages the soup session handed out by
+    pull — the login reply — are not application data (well-formedness of the deployment: `login()` consumes the acceptance;
+    the `example` at the end of the file satisfies it), the values handed to the application consumer are a prefix of the
+    decodable application messages carried by the bytes received so far: same order, nothing skipped, nothing twice, nothing that
+    was not sent; pull and callback mode, any decoded value (falsy ones included), cancelled receives — late cancels on either
+    queue included (no exclusion any more). -/
+theorem C04App_wire_prefix (a : ACfg) (evs : List Ev)
     (hp : ∀ n ∈ pulled (reach a evs).inner.trace, valOf a n = none) :
     appDelivered (reach a evs).trace2 <+: (Sess.msgsOf (reach a evs).inner.wire).filterMap (valOf a) := by
   obtain ⟨es, he⟩ := runEvs_reach a evs
-  have h1 := C04App_prefix_partial a evs hl2
+  have h1 := C04App_prefix a evs
   have h2 : Sess.delivered (reach a evs).inner.trace <+: Sess.msgsOf (reach a evs).inner.wire := by
-    rw [he] at hl1 ⊢; exact C04.C04_prefix_partial (innerCfg a) es hl1
+    rw [he]; exact C04.C04_prefix (innerCfg a) es
   rw [← decoded_delivered_eq (valOf a) _ hp] at h1
   obtain ⟨r, hr⟩ := h2
   refine h1.trans ?_
@@ -195,6 +209,55 @@ theorem C04App_cancel_waiting (a : ACfg) (s : St) (u : Nat)
       s'.rcv2Busy = false ∧ s'.vres2 = none ∧ alive2 (s'.astatus .V2) = false := by
   simp [step, St.cancel2, hW, hV, runnable2, St.setA, stepRun2, hpV, St.finish2, hpW, hv, hq, St.emit2, alive2]
 
+theorem reach_snoc (a : ACfg) (evs : List Ev) (e : Ev) : reach a (evs ++ [e]) = step a (reach a evs) e := by
+  simp [reach, runEvs, List.foldl_append]
+
+theorem reach_snoc2 (a : ACfg) (evs : List Ev) (e1 e2 : Ev) :
+    reach a (evs ++ [e1, e2]) = step a (step a (reach a evs) e1) e2 := by
+  simp [reach, runEvs, List.foldl_append]
+
+/-- **A cancelled `receive_message()` consumes no value, and the next receive returns the next undelivered value.**
+    In any reachable state, let the cancellation of user task `W u` be delivered inside its `receive_message()` — early or *late*
+    (the helper task had already taken a value off the application queue, `vres2 = some v`: the window of the former finding).
+    The caller sees the cancellation (end-of-queue if the queue was stopped meanwhile), nothing is delivered, no receive is
+    pending any more and the undelivered values are all still there, in order: the held value first, then the queue; delivered ++
+    queue is exactly what was fed to the application queue; and the next `receive_message()` in pull mode returns precisely the
+    first undelivered value, without suspending. -/
+theorem C04App_cancelled_receive_consumes_nothing (a : ACfg) (evs : List Ev) (u : Nat)
+    (hst : (reach a evs).astatus (.W u) = .cancelled) (hp : (reach a evs).aprog (.W u) = .recvWait u) :
+    let s := reach a evs
+    let s' := reach a (evs ++ [.run (.W u)])
+    s'.trace2 = s.trace2 ++ [.ret u (if s.q2Closed then .eoq else .cancelled)] ∧
+    appDelivered s'.trace2 = appDelivered s.trace2 ∧
+    s'.vres2 = none ∧ s'.rcv2Busy = false ∧ s'.q2 = s.vres2.toList ++ s.q2 ∧
+    appDelivered s'.trace2 ++ s'.q2 = (entered s'.inner.trace).filterMap (valOf a) ∧
+    (∀ v q u', s'.q2 = v :: q → s'.disp2Set = false → s'.built = true → s'.astatus (.W u') = .absent →
+      alive2 (s'.astatus .V2) = false →
+      (reach a (evs ++ [.run (.W u), .appRecv u'])).trace2 = s'.trace2 ++ [.ret u' (.msg v)] ∧
+      (reach a (evs ++ [.run (.W u), .appRecv u'])).q2 = q) := by
+  intro s s'
+  have e : s' = step a s (.run (.W u)) := reach_snoc a evs _
+  have hst' : s.astatus (.W u) = .cancelled := hst
+  have hp' : s.aprog (.W u) = .recvWait u := hp
+  have h1 : s'.trace2 = s.trace2 ++ [.ret u (if s.q2Closed then .eoq else .cancelled)] ∧ s'.vres2 = none ∧ s'.rcv2Busy = false ∧
+      s'.q2 = s.vres2.toList ++ s.q2 := by
+    rw [e]
+    cases hq : s.q2Closed <;>
+      simp [step, runnable2, hst', stepRun2, hp', hq, St.emit2, St.finish2, St.trace2, List.filterMap_append, PObs.appOf]
+  obtain ⟨ht, hv, hb, hqu⟩ := h1
+  have hd : appDelivered s'.trace2 = appDelivered s.trace2 := by
+    rw [ht]
+    cases s.q2Closed <;> simp [appDelivered, List.filterMap_append, deliveredA]
+  have hacc := C04App_accounting a (evs ++ [.run (.W u)])
+  refine ⟨ht, hd, hv, hb, hqu, ?_, ?_⟩
+  · have : appDelivered s'.trace2 ++ s'.vres2.toList ++ s'.q2 = (entered s'.inner.trace).filterMap (valOf a) := hacc
+    rw [hv] at this; simpa using this
+  · intro v q u' hq hds hbu hu' hV
+    have e2 : reach a (evs ++ [.run (.W u), .appRecv u']) = step a s' (.appRecv u') := by
+      rw [reach_snoc2, e]
+    rw [e2]
+    simp [step, startRecv2, hb, hv, hds, hq, hbu, hu', hV, St.emit2, St.setA, St.trace2, List.filterMap_append, PObs.appOf]
+
 /-! ### non-vacuity: a concrete lifetime -/
 
 /-- 0 = the login acceptance (not data), 4 = a payload whose decode raises, 5 = a payload that decodes to the falsy value `0` -/
@@ -218,7 +281,6 @@ example : (reach a1 life).trace2 =
 set_option maxRecDepth 100000 in
 example : (Sess.msgsOf (reach a1 life).inner.wire).filterMap (valOf a1) = [3, 0, 6] := by decide
 set_option maxRecDepth 100000 in
-example : (reach a1 life).lost2 = [] ∧ (reach a1 life).inner.lost = [] ∧ pulled (reach a1 life).inner.trace = [0] ∧
-    valOf a1 0 = none := by decide
+example : pulled (reach a1 life).inner.trace = [0] ∧ valOf a1 0 = none := by decide
 
 end NasdaqModel.Props.C04App
